@@ -82,16 +82,21 @@ def build_overlay(prop_id, suite, wdir):
         ov[os.path.join(REPO, pkgdir, f"zz_verif_{c}.go")] = real
     # source patches: a real file of the package under test with one call site replaced (network call, goroutine
     # launch); regenerated from the current tree on every run, the anchor must occur exactly once
-    for i, pt in enumerate(suite.get("patches", [])):
+    patched = {}
+    for pt in suite.get("patches", []):
         src = os.path.join(REPO, pt["file"])
         if not os.path.exists(src):
             raise SystemExit(f"HARNESS-STALE: {pt['file']} does not exist")
-        txt = open(src).read()
+        txt = patched.get(src)
+        if txt is None:
+            txt = open(src).read()
         if txt.count(pt["anchor"]) != 1:
             print(f"HARNESS-STALE property={prop_id}: patch anchor {pt['anchor']!r} occurs {txt.count(pt['anchor'])} times in {pt['file']}")
             sys.exit(2)
-        real = os.path.join(wdir, f"patched_{i}_" + os.path.basename(pt["file"]))
-        open(real, "w").write(txt.replace(pt["anchor"], pt["replace"]))
+        patched[src] = txt.replace(pt["anchor"], pt["replace"])
+    for i, (src, txt) in enumerate(sorted(patched.items())):
+        real = os.path.join(wdir, f"patched_{i}_" + os.path.basename(src))
+        open(real, "w").write(txt)
         ov[src] = real
     # extra overlays into other packages (e.g. exported test hooks are NOT used; this is for harness-side models)
     for virt, real in suite.get("extra_overlay", {}).items():
@@ -218,8 +223,12 @@ def main():
     mod = importlib.import_module("props." + pid)
     prop = mod.PROPERTY
     known_open, known_fixed = load_known()
-    wroot = os.path.join(WORK, pid)
+    # one work directory per invocation (two runs of the same property must not share files); --keep uses a fixed name
+    wroot = os.path.join(WORK, pid if args.keep else f"{pid}.{tier}.{os.getpid()}")
     shutil.rmtree(wroot, ignore_errors=True)
+    if not args.keep:
+        import atexit
+        atexit.register(lambda: shutil.rmtree(wroot, ignore_errors=True))
     os.makedirs(wroot, exist_ok=True)
     replay_dir = os.path.join(VERIF, "replays", pid)
 
@@ -493,9 +502,11 @@ def do_replay(path):
     d = json.load(open(path))
     mod = importlib.import_module("props." + d["property"])
     suite = next(s for s in mod.PROPERTY["suites"] if s["name"] == d["suite"])
-    wdir = os.path.join(WORK, "replay")
+    wdir = os.path.join(WORK, f"replay.{os.getpid()}")
     shutil.rmtree(wdir, ignore_errors=True)
     os.makedirs(wdir)
+    import atexit
+    atexit.register(lambda: shutil.rmtree(wdir, ignore_errors=True))
     ov, native_ov, _ = build_overlay(d["property"], suite, wdir)
     os.environ["VERIF_PANIC_MSG"] = "1"
     res, err = run_native(suite["pkg"], native_ov, [{"func": d["func"], "conf": d["conf"], "vector": d["vector"]}], wdir, "replay")
